@@ -7,6 +7,14 @@ PKGS = {
 }
 
 PROPS = {
+    "C20": {
+        "harnesses": [
+            {"pkg": "ord", "name": "VH_C20_ListAccept", "quick": {"params": {"U": 2, "FQ": 0}}, "thorough": {"params": {"U": 3, "FQ": 1}}},
+            {"pkg": "ord", "name": "VH_C20_BidAccept", "quick": {"params": {"U": 2, "FQ": 0}}, "thorough": {"params": {"U": 3, "FQ": 1}}},
+            {"pkg": "ord", "name": "VH_C20_Inscribe", "quick": {"params": {"BIG": 0}}, "thorough": {"params": {"BIG": 1}}},
+        ],
+        "assumptions": [],
+    },
     "C06": {
         "harnesses": [
             {"pkg": "interpreter", "name": "VH_C06_CheckSig", "quick": {"params": {"S": 1, "ERA": 0, "HT": 1}}, "thorough": {"params": {"S": 2, "ERA": 1, "HT": 2}}},
